@@ -94,7 +94,7 @@ ASSUMPTIONS = [
     "both drive styles are accepted as conformant: commands acting on reception of the controlword, or the "
     "latched controlword evaluated again in every new state (lvl); fault reset is edge-triggered in both",
 ]
-BUDGET = {"quick": 40, "thorough": 300}
+BUDGET = {"quick": 150, "thorough": 300}
 
 NODE = 5
 
@@ -103,10 +103,10 @@ TRANSPORTS = {
     "sdo": (["none", "G"], 255, 255, None),
     "cw": (["CW"], 255, 255, None),
     "sw": (["SW"], 255, 255, None),
-    "ev": (["A", "B", "C", "D", "E", "F", "H"], 255, 255, None),
+    "ev": (["A", "B", "C", "D", "E", "F", "H", "I"], 255, 255, None),
     "cyc": (["A", "B", "C", "D"], 1, 255, "lockstep"),
     "cycr": (["A", "B", "C", "D"], 1, 1, "lockstep"),
-    "free": (["A", "B", "C", "D"], 255, 255, "free"),
+    "free": (["A", "B", "C", "D", "I"], 255, 255, "free"),
 }
 TR_GROUP = {"sdo": "sdo-status", "cw": "sdo-status", "sw": "event-tpdo", "ev": "event-tpdo",
             "cyc": "cyclic-tpdo", "cycr": "cyclic-tpdo", "free": "timer-tpdo-thread"}
@@ -151,7 +151,7 @@ class Rig:
             NODE, start=start, k=k, extras=case.get("extras", [0]), qs=case.get("qs", "stay"),
             cw0=case.get("cw0", 0), supported=case.get("supported", 0), display=case.get("display0", 0),
             kmode=case.get("kmode", 0), layout=layout, tpdo_tt=tpdo_tt, rpdo_tt=rpdo_tt,
-            level=case.get("lvl", False), timer_only=thread == "free")
+            level=case.get("lvl", False), timer_only=thread == "free", evt=case.get("evt", 0))
         self.drive.force_sw = force_sw
         self.drive.attach(self.hub)
         self.net, self.port = self.hub.attach("master")
@@ -171,7 +171,7 @@ class Rig:
             node.TIMEOUT_CHECK_TPDO = 0.001
             node.TIMEOUT_SWITCH_OP_MODE = 0.05
         node.nmt.state = "OPERATIONAL"
-        if case.get("setup", "read") == "read" or layout in ("E", "F", "G", "H"):
+        if case.get("setup", "read") == "read" or layout in ("E", "F", "G", "H", "I"):
             try:
                 node.setup_402_state_machine(read_pdos=True)
             except Exception as e:
@@ -186,6 +186,8 @@ class Rig:
                     m.cob_id = bases[n - 1] + NODE
                     m.enabled = bool(entries)
                     m.trans_type = tt
+                    if case.get("evt"):
+                        m.event_timer = case["evt"]
                     for index, bits in entries or []:
                         m.add_variable(index, 0, bits)
             try:
@@ -598,6 +600,9 @@ def pair_cases(tier):
                         for layout, setup in combos:
                             case = {"fam": "pair", "tr": tr, "start": start, "target": target, "k": k,
                                     "extras": extras, "qs": qs, "layout": layout, "setup": setup}
+                            if (i // 5) % 3 == 0 and tr != "sdo":
+                                # a non-zero event timer / reception deadline changes nothing for the master
+                                case["evt"] = 100
                             if tr == "sdo":
                                 case["od_pdo"] = bool(i % 2) if tier != "thorough" else setup == "read"
                             # the controlword the drive last received before the master takes over;
@@ -664,6 +669,8 @@ def hist_case(draw):
             "supported": draw(st.integers(0, 0xFFFFFFFF)),
             "display0": draw(st.sampled_from([0, 1, 3, 6, 8])),
             "lvl": draw(st.booleans())}
+    if tr != "sdo" and draw(st.integers(0, 2)) == 0:
+        case["evt"] = draw(st.sampled_from([1, 100, 0xFFFF]))
     case["cw0"] = draw(st.sampled_from(CW_CONSISTENT[case["start"]]))
     if tr == "sdo":
         case["od_pdo"] = draw(st.booleans())
